@@ -91,9 +91,9 @@ class CallableCanary(Canary):
         LOG.append("call"); return "C"
 
 
-HELPERS = ["lower", "upper"]
-NAMES = ["r", "net", "f", "string"] + HELPERS + ["len", "open"]
-GENFLAGS = ["none", "f", "string", "f_op", "net_val"]
+HELPERS = ["lower", "upper", "fields"]
+NAMES = ["r", "net", "f", "string"] + HELPERS + ["str", "any"] + ["len", "open"]
+GENFLAGS = ["none", "f", "string", "fields", "f_op", "net_val", "late_string"]
 ATTRS = ["strip", "upper", "__class__", "__x", "s", "ipaddress", "fl", "o"]
 CONTEXTS = ["bare", "arg", "operand", "listelt", "genelt", "geniter", "gencond", "kwarg", "not", "boolop", "add_list", "mult", "bitor", "helper_strings", "helper_fields", "primed", "fields_arg", "fields_kwarg"]
 
@@ -116,12 +116,20 @@ def render(t, g, ctx):
     b = t["base"]
     base = {"name": b.get("n"), "callres": "lower(r.c)", "const": "'abc'", "paren": "(r.c + 'x')", "lambda": "(lambda: 1)", "subscript": "r.fl[0]"}[b["b"]]
     tgt = base + "".join("." + a for a in t["chain"])
-    if not t["call"]:
+    if t["call"] and g == "late_string":
+        X = tgt + ("([any(g)])" if b.get("n") == "any" and not t["chain"] else "(any(g))")      # the argument advances the suspended generator held in g (see the wrapper below)
+    elif not t["call"]:
         X = tgt
     elif t["chain"] and t["chain"][-1] == "ipaddress" and b.get("n") == "net" and len(t["chain"]) == 1:
         X = tgt + "('1.2.3.4')"
-    elif b.get("n") in ("lower", "upper", "len", "open", "string") and not t["chain"]:
+    elif b.get("n") in ("lower", "upper", "len", "open", "string", "str") and not t["chain"]:
         X = tgt + "(r.c)"
+    elif b.get("n") == "any" and not t["chain"]:
+        X = tgt + "([r.c])"
+    elif b.get("n") == "fields" and not t["chain"]:
+        X = tgt + "('string')"
+    elif b.get("n") in ("str", "any", "lower", "upper", "fields") and t["chain"]:
+        X = tgt + "(r.c)"        # a method reached THROUGH a whitelisted name, given the value it would work on: str.upper(r.c)
     else:
         X = tgt + "()"
     e = {
@@ -133,7 +141,9 @@ def render(t, g, ctx):
         "primed": f"{X} == 1",
         "fields_arg": f"any(f.name == 'x' for f in fields({X}))", "fields_kwarg": f"any(f.name == 'x' for f in fields(typename={X}))",
     }[ctx]
-    if g == "f_op":
+    if g == "late_string":
+        e = f"any({e} for g in [(1 for string in [r.c.strip])])"
+    elif g == "f_op":
         e = f"1 in ({e} for f in [r.c.strip])"
     elif g == "net_val":
         e = f"any({e} for net in [r.c])"       # the variable shadows the ROOT of dotted constructors and is bound to a record value
@@ -163,6 +173,16 @@ def run_shape(src, D, entry="match"):
     try:
         if entry == "match":
             Selector(src).match(rec)
+        elif entry == "make_selector":
+            # a trusted caller (rdump's default) asked for the COMPILED form of the same text earlier in this process;
+            # the untrusted request that follows must still get the interpreted engine
+            from flow.record.selector import make_selector
+
+            try:
+                make_selector(src, force_compiled=True)
+            except Exception:
+                pass
+            make_selector(src).match(rec)
         else:
             Selector(src).explain_selector(rec)
         refused, exc = False, "none"
@@ -180,10 +200,12 @@ def run(tier):
 
     ctx = check.Ctx(PROP, tier)
     thorough = tier == "thorough"
-    ctx.design("Policy", "MC_Policy.cfg", "all call/read shapes (13 bases x chains <= 2 over 5 attribute classes) x in-generator flag x 10 contexts", workers=4)
+    ctx.design("Policy", "MC_Policy.cfg", "all call/read shapes (15 bases x chains <= 2 over 5 attribute classes) x in-generator flag x 10 contexts", workers=4)
     if thorough:
         ctx.sensitivity("Policy", "MC_Policy_dev_Path.cfg", "as-built path resolution must violate OnlyWhitelistedInvoked", "OnlyWhitelistedInvoked", workers=4)
         ctx.sensitivity("Policy", "MC_Policy_dev_GenVar.cfg", "generator variable as call target must violate OnlyWhitelistedInvoked", "OnlyWhitelistedInvoked", workers=4)
+        ctx.sensitivity("Policy", "MC_Policy_dev_Late.cfg", "looking the target up after the arguments must violate OnlyWhitelistedInvoked", "OnlyWhitelistedInvoked", workers=4)
+        ctx.sensitivity("Policy", "MC_Policy_dev_Root.cfg", "testing only the root of a dotted target must violate OnlyWhitelistedInvoked", "OnlyWhitelistedInvoked", workers=4)
         ctx.sensitivity("Policy", "MC_Policy_dev_Shadow.cfg", "generator variable named like a field type must violate OnlyWhitelistedInvoked", "OnlyWhitelistedInvoked", workers=4)
     # the grammar's partition of Python's expression nodes: every ast.expr subclass is either handled by the
     # shapes/contexts above or must be refused syntactically -- assert the refused set really is refused
@@ -207,6 +229,11 @@ def run(tier):
                 ctx.violation({"check": "refused-syntax", "node": name, "entry": entry}, {"source": src, "observed": o})
     cases, metas = [], []
     ts = targets()
+    # a hostile expression that IS evaluated (a broken sandbox) can do anything -- `open(True)` wraps the process's standard
+    # output in a file object that closes it when collected: keep copies of the standard descriptors and put them back
+    import gc
+
+    saved_fds = [os.dup(i) for i in (0, 1, 2)]
     for t in ts:
         for g in GENFLAGS:
             for c in (CONTEXTS if thorough or True else CONTEXTS[:4]):
@@ -218,6 +245,14 @@ def run(tier):
                     cases.append({"t": t, "g": g, "ctx": c, "obs": run_shape(src, D, "explain")})
                     metas.append("explain_selector: " + src)
                     ctx.case("explain:" + src)
+                if c in ("bare", "genelt"):               # the factory the readers use, after the compiled form of the same text was built
+                    cases.append({"t": t, "g": g, "ctx": c, "obs": run_shape(src, D, "make_selector")})
+                    metas.append("make_selector after force_compiled: " + src)
+                    ctx.case("make_selector:" + src)
+    gc.collect()
+    for i, fd in enumerate(saved_fds):
+        os.dup2(fd, i)
+        os.close(fd)
     for i in (0, 57, 1203):
         ctx.sample({"source": metas[i], **cases[i]})
     path = os.path.join(common.scratch("c09"), "cases.json")
